@@ -16,7 +16,7 @@ CMDS = [("nop", "hi"), ("readCounters", "hi"), ("readAndClearCounters", "hi"), (
 # sends and their set-up commands last (-1), everything else 0
 SPEC_PRIO = {"nop": 999, "readCounters": 999, "readAndClearCounters": 999, "getValue": 999,
              "sendUnicast": -1, "sendMulticast": -1, "sendBroadcast": -1, "setSourceRoute": -1, "setExtendedTimeout": -1}
-KIND = {"timeout": 0, "sendfail": 1, "invalid": 2, "cancelled": 3}
+KIND = {"timeout": 0, "sendfail": 1, "invalid": 2, "cancelled": 3, "other": 9}
 
 
 class Driver:
@@ -91,6 +91,8 @@ class Driver:
         except asyncio.CancelledError:
             self.log.append(("raise", i, KIND["cancelled"]))
             raise
+        except BaseException as e:  # noqa
+            self.log.append(("raise", i, KIND["other"], type(e).__name__ + ": " + str(e)[:80]))
 
     # ---- events -----------------------------------------------------------------------------------
     def call(self, i, name):
@@ -159,7 +161,7 @@ class Driver:
         return d
 
 
-def run_script(version, calls, script, seq0=0):
+def run_script(version, calls, script, seq0=0, max_steps=60):
     """calls: list of command names issued at the start (ids 0..); script: reactions for the current
     holder, consumed one at a time until every call has ended"""
     d = Driver(version)
@@ -172,7 +174,7 @@ def run_script(version, calls, script, seq0=0):
         nid = len(calls)
         k = 0
         guard = 0
-        while any(not t.done() for t in d.tasks.values()) and guard < 60:
+        while any(not t.done() for t in d.tasks.values()) and guard < max_steps:
             guard += 1
             r = script[k] if k < len(script) else "reply"
             k += 1
@@ -304,6 +306,15 @@ class Check(PropertyCheck):
             if "seq0" not in c:
                 c["seq0"] = rng.choice([rng.randrange(256), 254, 255, 253])
                 cases.append(c)
+        # a call that ended without any reply (no answer, link-level send failure, caller cancelled) leaves its sequence
+        # number behind; 256 commands later the number comes round again and that command must complete like any other
+        for v in (4, 8):
+            for r0 in ("never", "sendfail", "cancel"):
+                for s0 in (0, 3, 200):
+                    if tier == "quick" and (v, s0) not in ((4, 3), (8, 200)):
+                        continue
+                    cases.append({"v": v, "seq0": s0, "calls": ["getEui64"] + ["nop"] * 258, "script": [r0] + ["reply"] * 258,
+                                  "max_steps": 700})
         # sequence number wrap: 300 commands in a row
         for v in (4, 8):
             cases.append({"v": v, "calls": ["nop"], "script": [("newcall", rng.choice(names)) if i % 2 == 0 else "reply" for i in range(600)][:58]})
@@ -312,7 +323,7 @@ class Check(PropertyCheck):
 
     def run_impl(self, case):
         script = [tuple(x) if isinstance(x, list) else x for x in case["script"]]
-        obs = run_script(case["v"], case["calls"], script, case.get("seq0", 0))
+        obs = run_script(case["v"], case["calls"], script, case.get("seq0", 0), case.get("max_steps", 60))
         case["_events"] = obs.pop("events")
         return obs
 
@@ -403,6 +414,9 @@ class Check(PropertyCheck):
                         inflight = None
                     self._last_ret = (cid, vals)
                 elif e[0] == "raise":
+                    if e[2] == KIND["other"]:
+                        return (f"command {e[1]} ended with {e[3]}: a command call returns its response, raises a timeout, "
+                                f"an invalid-command or a link error, or is cancelled")
                     if e[2] == KIND["timeout"]:
                         # a command times out when ITS request went unanswered for the command timeout: a caller that
                         # is still queued has sent nothing yet and cannot time out
